@@ -204,6 +204,11 @@ def mutate(rng, doc, version):
         elif k == "target":
             t = d.get("targets")
             if isinstance(t, list):
+                if t and rng.random() < 0.35:
+                    # a target given twice (next to each other or apart), then an unsound one
+                    i_ = rng.randrange(len(t))
+                    t.insert(rng.randint(i_, len(t)), t[i_])
+                    labels.append("repeated-target")
                 t.append(rng.choice(["nobody", "root", "sgx_root", 5, None, ["ui"], "ui",
                                      "quote", "device"]))
                 labels.append("extra-target")
